@@ -8,7 +8,8 @@ from lib.common import Ctx, Build, Scratch, InfraError, REPO, pmap
 SCEN = {"a": "three threads race ovni_proc_init (distinct looms); the winner traces a full thread life and finalises",
         "b": "process ready; two threads concurrently init / require / add_cpu / emit / flush / attr / free",
         "c": "two threads race ovni_proc_fini",
-        "d": "ovni_thread_init racing ovni_proc_init"}
+        "d": "ovni_thread_init racing ovni_proc_init",
+        "e": "process ready; three threads concurrently init / require / add_cpu / emit / flush / attr / free"}
 
 
 class Server:
@@ -102,6 +103,8 @@ def run(prop, tier):
             configs = [("a", "d", exe), ("b", "d", exe), ("b", "t", exe), ("c", "d", exe), ("c", "t", exe), ("d", "d", exe), ("b", "d", exe_small)]
             if tier != "quick":
                 configs += [("a", "t", exe), ("d", "t", exe), ("b", "t", exe_small)]
+                if bound == 2:
+                    configs += [("e", "d", exe), ("e", "t", exe)]      # three threads: bound 2 only
             for (sc, mode, xe) in configs:
                 small = xe is exe_small
                 if ctx.out_of_time(0.8):
